@@ -313,50 +313,75 @@ def _event_stub_factory(counter):
 
 @harness(clause="shadow-and-count")
 def create_event_counts_and_rejects():
-    """one throw = count + 1; with shadowing the throw is accepted iff a fresh U < survival weight,
-    otherwise create_event is called again (its contract: count increases by the throws it makes)"""
+    """every throw - accepted or shadowed - increments count and draws its own vertex, direction, energy and flavour from
+    the generator's sources; with shadowing a throw is accepted iff a fresh U < its survival weight, otherwise another
+    throw is made; the returned event holds the particle of the last throw.  Stated over what is observable (calls and
+    count), not over how the retry is written (recursion or loop); the second throw is given survival weight 1 so that
+    the scenario ends after at most two throws."""
     for shadow in (False, True):
-        g = new(CG, 1000, 1000, energy=1000000000, shadow=shadow)
+        calls = {"vertex": [], "direction": [], "energy": [], "flavour": [], "weights": []}
+
+        def energy_source():
+            v = ("energy", len(calls["energy"]))
+            calls["energy"].append(v)
+            return v
+        g = new(CG, 1000, 1000, energy=energy_source, shadow=shadow)
         c0 = integer("count0")
         g.count = c0
         sw = real("survival")
         iw = real("interaction")
-        assume(And(sw > 0, sw <= 1, iw >= 0))
-        use_stub("pyrex.generation.Generator.get_weights", lambda self, particle: (sw, iw))
+        iw2 = real("interaction_2")
+        assume(And(sw > 0, sw <= 1, iw >= 0, iw2 >= 0))
+
+        def counting(kind):
+            def stub(self):
+                v = (kind, len(calls[kind]))
+                calls[kind].append(v)
+                return v
+            return stub
+        use_stub("pyrex.generation.CylindricalGenerator.get_vertex", counting("vertex"))
+        use_stub("pyrex.generation.Generator.get_direction", counting("direction"))
+        use_stub("pyrex.generation.Generator.get_particle_type", counting("flavour"))
+
+        def weights_stub(self, particle):
+            calls["weights"].append(particle)
+            return (sw, iw) if len(calls["weights"]) == 1 else (1, iw2)
+        use_stub("pyrex.generation.Generator.get_weights", weights_stub)
         made = []
 
-        class FakeParticle:
-            def __init__(self, **kw):
-                self.kw = kw
-                self.survival_weight = None
-                self.interaction_weight = None
-        recursive = []
-
-        def rec_stub(self):
-            recursive.append(1)
-            self.count += 1
-            return "recursive-event"
-        use_stub("pyrex.generation.Generator.create_event", rec_stub)
-        use_stub("pyrex.particle.Particle.__init__", lambda self, **kw: made.append(self))
+        def particle_init(self, **kw):
+            self.kw = kw
+            made.append(self)
+        use_stub("pyrex.particle.Particle.__init__", particle_init)
         use_stub("pyrex.particle.Event.__init__", lambda self, roots: setattr(self, "roots", [roots]))
         n_before = len(draws())
-        ev = call_real(g.create_event)
+        ev = g.create_event()
+        throws = len(calls["weights"])
+        tag = "shadow:" if shadow else "no-shadow:"
+        prove(tag + "count-increases-by-the-number-of-throws", g.count == c0 + throws)
+        prove(tag + "every-throw-draws-its-own-vertex-direction-energy-flavour",
+              And(len(calls["vertex"]) == throws, len(calls["direction"]) == throws, len(calls["energy"]) == throws,
+                  len(calls["flavour"]) == throws, len(made) == throws))
+        last = made[-1]
+        k = throws - 1
+        prove(tag + "particle-built-from-its-own-throw's-draws",
+              And(last.kw["vertex"] == ("vertex", k), last.kw["direction"] == ("direction", k), last.kw["energy"] == ("energy", k),
+                  last.kw["particle_id"] == ("flavour", k), calls["weights"][k] is last))
+        prove(tag + "event-wraps-the-last-particle", ev.roots[0] is last)
         if shadow:
-            u = draws()[-1]
-            if len(recursive) == 0:
-                prove("accepted-iff-u<survival", u < sw)
-                prove("count+1", g.count == c0 + 1)
-                prove("accepted-survival-weight-is-1", eq(made[0].survival_weight, 1))
-                prove("accepted-interaction-weight", eq(made[0].interaction_weight, iw))
+            us = draws()[n_before:]
+            prove("one-uniform-draw-per-throw", len(us) == throws)
+            if throws == 1:
+                prove("accepted-iff-u<survival", us[0] < sw)
+                prove("accepted-interaction-weight", eq(last.interaction_weight, iw))
             else:
-                prove("rejected-iff-u>=survival", u >= sw)
-                prove("rejected-throw-counted-then-retried", And(g.count == c0 + 2, len(recursive) == 1))
-                prove("result-is-the-retry", ev == "recursive-event")
+                prove("rejected-iff-u>=survival", us[0] >= sw)
+                prove("at-most-one-retry-in-this-scenario", throws == 2)
+                prove("retry-carries-its-own-weights", eq(last.interaction_weight, iw2))
+            prove("accepted-survival-weight-is-1", eq(last.survival_weight, 1))
         else:
-            prove("no-recursion-without-shadow", len(recursive) == 0)
-            prove("count+1", g.count == c0 + 1)
-            prove("weights-stored", And(eq(made[0].survival_weight, sw), eq(made[0].interaction_weight, iw)))
-            prove("event-wraps-particle", ev.roots[0] is made[0])
+            prove("single-throw-without-shadow", And(throws == 1, len(draws()) == n_before))
+            prove("weights-stored", And(eq(last.survival_weight, sw), eq(last.interaction_weight, iw)))
 
 
 # ---------------------------------------------------------------------------
